@@ -615,6 +615,29 @@ def run_inputs(case: dict, trace: bool = False,
         ctx.close()
 
 
+def unanswered(ctx: Ctx) -> None:
+    """End of a multi-session case (holds released, IDLEs ended, NOOP
+    everywhere, quiescent): every command line of a connection that is still
+    up and was not faulted has its tagged result."""
+    ctx.settle(3.0)
+    for sid, cl in sorted(ctx.clients.items()):
+        conn = cl.conn
+        if conn.done or conn.client_reset or conn.client_eof or conn.held \
+                or conn.inbox_eof or cl.stream.error is not None:
+            continue
+        for cmd in cl.history:
+            if cmd.result is not None:
+                continue
+            if cmd.kind == 'idle' and not getattr(cmd, 'done_sent', False):
+                continue
+            ctx.violate('C06', 'unanswered', 'session %d: %s (tag %s) never '
+                        'got its tagged result although the connection is '
+                        'up and idle' % (sid, cmd.kind.upper(),
+                                         cmd.tag.decode('latin-1')),
+                        session=sid, sig={'command': cmd.kind})
+            return
+
+
 class C06(Profile):
     id = 'C06'
     BACKENDS = ('dict', 'dict', 'dict', 'maildir')
@@ -668,7 +691,7 @@ class C06(Profile):
     def run(self, case, trace=False):
         if case.get('family') in ('concurrent', 'model'):
             from .c01 import run_concurrent
-            return run_concurrent(case, 'C06', trace)
+            return run_concurrent(case, 'C06', trace, at_end=unanswered)
         return run_inputs(case, trace)
 
 
